@@ -16,6 +16,7 @@ import SemaModel.Base.DriverUtil
 import SemaModel.C02.Model
 import SemaModel.Compose.Driver
 import SemaModel.Compose.RankDriver
+import SemaModel.Compose.AcceptDriver
 namespace Sema.C02
 open Sema
 
@@ -161,8 +162,11 @@ end Sema.C02
 
 /-- `semadriver C02` runs the C02 model; `semadriver C02 compose` answers the same op lines (and `searchx`)
 with the combined model of SemaModel/Compose (C01 point store + C02 indexes + C06 pipeline); `semadriver C02 rank`
-answers the ranking histories with the combined model extended by the flat and text indexes (Compose/RankDriver.lean) -/
+answers the ranking histories with the combined model extended by the flat and text indexes (Compose/RankDriver.lean);
+`semadriver C02 accept` answers the acceptance histories (Compose/AcceptDriver.lean): the combined model's result and,
+beside it, the decision of the independent predicate `Acceptable` -/
 def Sema.C02.driverMain (stdin stdout : IO.FS.Stream) (args : List String) : IO Unit :=
   if args.head? == some "compose" then Sema.Compose.driverMain stdin stdout args.tail
   else if args.head? == some "rank" then Sema.Compose.rankDriverMain stdin stdout args.tail
+  else if args.head? == some "accept" then Sema.Compose.acceptDriverMain stdin stdout args.tail
   else Sema.loopState stdin stdout Sema.C02.step {}
